@@ -24,7 +24,7 @@ func RunPath(p *Program, s *smt.Solver, entry *ssa.Function, prefix []Decision, 
 		// the virtual clock starts at a realistic wall-clock reading (ns since 1970), far from the zero time.Time
 		now: 1_700_000_000_000_000_000,
 	}
-	m.Res = &RunResult{Blocks: map[*ssa.Function][]bool{}, Reached: map[string]int{}, Asserts: map[string]int{}, BySolver: map[string]int{}, Unknown: map[string]int{}, Funcs: map[string]int{}, Forks: map[string]int{}, Cross: map[string]int{}}
+	m.Res = &RunResult{Degraded: map[string]int{}, Blocks: map[*ssa.Function][]bool{}, Reached: map[string]int{}, Asserts: map[string]int{}, BySolver: map[string]int{}, Unknown: map[string]int{}, Funcs: map[string]int{}, Forks: map[string]int{}, Cross: map[string]int{}}
 	s.Reset()
 	g0 := &goroutine{id: 0, resume: make(chan bool)}
 	m.gs = []*goroutine{g0}
@@ -85,6 +85,7 @@ type HarnessSummary struct {
 	Forks       map[string]int
 	Funcs       map[string]bool
 	Blocks      map[*ssa.Function][]bool
+	Degraded    map[string]int
 	Steps       int
 	Problems    []string // engine errors, unwind failures, deadlocks (first few)
 	Truncated   bool
@@ -225,6 +226,12 @@ func (s *HarnessSummary) absorb(r *RunResult) {
 	}
 	if s.Blocks == nil {
 		s.Blocks = map[*ssa.Function][]bool{}
+	}
+	for k, v := range r.Degraded {
+		if s.Degraded == nil {
+			s.Degraded = map[string]int{}
+		}
+		s.Degraded[k] += v
 	}
 	for fn, cov := range r.Blocks {
 		dst := s.Blocks[fn]
